@@ -2,6 +2,7 @@ package c11
 
 import (
 	"fmt"
+	"net"
 	"os"
 	"path/filepath"
 	"runtime"
@@ -311,7 +312,9 @@ var dirNames = func() []string {
 // lexical classes of values; command, file and interval slots stay harmless
 var values = []string{"", "0", "1", "-1", "5", "99999999999999999999", "65536", "65535", "255", "256", "2147483647", "2147483648", "4294967295", "4294967296", "9223372036854775807", "9223372036854775808", "-2147483649", "1e9", "0x10", "007", "1s", "0s", "-5s", "10m", "none", "off", "on", "*", "/", "/x", "x", ".php", "1MB", "4KB", "0B", "-1KB", "1GB", "9999999GB", "KB",
 	"missing.txt", "ht.txt", "htpasswd=ht.txt", "htpasswd=missing.txt", "htpasswd=bad-ht.txt", "htpasswd=", "htpasswd=dir", "Casketfile", "./Casketfile", "bad-ht.txt", "cert.pem", "key.pem", "page.html", "dir", "./", "a.log", "stdout", "stderr", "syslog", "http://127.0.0.1:9", "https://127.0.0.1:9", "127.0.0.1:9", "localhost:9-12", "localhost:70000", "localhost:65533-65535", "localhost:65535-65535", "localhost:65535", "localhost:12-9", "localhost:65534-65536", "localhost:0-2", "localhost:1-", "localhost:-5", "localhost:5-5-5", "unix:/nonexistent.sock", "srv://x.test", "://", "h:p:q",
-	"^(.*)$", "(", "[a-", "{path}", "{>X}", "{1}", "{$HOME}", "text/plain", "tls1.2", "tls1.0", "ssl3", "p256", "rsa2048", "X25519", "ECDHE-RSA-AES128-GCM-SHA256", "GET", "get", "301", "999", "abc", "is", "not", "match", "true", "false", "nonexistent-command-xyz", "&", "ü", strings.Repeat("a", 300), "a b", "\"", "255.255.255.0", "ffff::", "300.1.1.1", "round_robin", "header", "ip_hash", "random", "startup", "shutdown", "certrenew", "bogus_event", "zip", "tar.gz", "rar", "lines", "text", "binary", "request", "require", "verify_if_given", "ca.pem"}
+	"^(.*)$", "(", "[a-", "{path}", "{>X}", "{1}", "{$HOME}", "text/plain", "tls1.2", "tls1.0", "ssl3", "p256", "rsa2048", "X25519", "ECDHE-RSA-AES128-GCM-SHA256", "GET", "get", "301", "999", "abc", "is", "not", "match", "true", "false", "nonexistent-command-xyz", "&", "ü", strings.Repeat("a", 300), "a b", "\"", "255.255.255.0", "ffff::", "300.1.1.1", "round_robin", "header", "ip_hash", "random", "startup", "shutdown", "certrenew", "bogus_event", "zip", "tar.gz", "rar", "lines", "text", "binary", "request", "require", "verify_if_given", "ca.pem",
+	// command texts that are not blank yet hold no word once a shell-like splitter is done with them
+	"#", "# todo", "#!/bin/true", "   ", "\t", "''", "\\", "'", "a 'b", "$(", "`"}
 
 func genValue(t *rapid.T, lb string) string {
 	return rapid.SampledFrom(values).Draw(t, lb)
@@ -529,6 +532,13 @@ var constants = []string{
 	"localhost:0 {\n\terrors visible {\n\t\trotate_keep 5\n\t}\n\tzz_end\n}\n",
 	"localhost:0 {\n\tproxy / 127.0.0.1:9 {\n\t\thealth_check /x\n\t\thealth_check_interval 0s\n\t}\n\tzz_end\n}\n",
 	"localhost:0 {\n\tproxy / 127.0.0.1:9 {\n\t\thealth_check /x\n\t\thealth_check_interval -5s\n\t}\n\tzz_end\n}\n",
+	"localhost:0 {\n\ton startup \"#!/bin/true\"\n\tzz_end\n}\n", "localhost:0 {\n\ton startup \"# todo\"\n\tzz_end\n}\n", "localhost:0 {\n\ton shutdown \"   \"\n\tzz_end\n}\n", "localhost:0 {\n\ton startup ''\n\tzz_end\n}\n",
+	"localhost:0 {\n\twebsocket /ws \"# todo\"\n\tzz_end\n}\n", "localhost:0 {\n\twebsocket /ws \"'\"\n\tzz_end\n}\n", "localhost:0 {\n\twebsocket \"#\"\n\tzz_end\n}\n",
+	// error paths of proxy next to an upstream whose backend is hung (takes the connection, never answers)
+	"localhost:0 {\n\tproxy /a {HUNG} {\n\t\thealth_check /h\n\t\thealth_check_timeout 0\n\t}\n\tproxy /b 127.0.0.1:9 {\n\t\tpolicy nosuchpolicy\n\t}\n\tzz_end\n}\n",
+	"localhost:0 {\n\tproxy /a {HUNG} {\n\t\thealth_check /h\n\t\thealth_check_timeout 0\n\t}\n\tproxy /b 127.0.0.1:9 {\n\t\tmax_fails 0\n\t}\n\tzz_end\n}\n",
+	"localhost:0 {\n\tproxy /a {HUNG} {\n\t\thealth_check /h\n\t\thealth_check_timeout 0\n\t}\n\tproxy /b 127.0.0.1:9 {\n\t\tnosuchproperty x\n\t}\n\tzz_end\n}\n",
+	"localhost:0 {\n\tproxy /a {HUNG} {\n\t\thealth_check /h\n\t\thealth_check_timeout 0\n\t}\n\tstatus notanumber /\n\tzz_end\n}\n",
 	"localhost:0 {\n\tproxy / localhost:65533-65535\n\tzz_end\n}\n", "localhost:0 {\n\tproxy / localhost:65535-65535\n\tzz_end\n}\n", "localhost:0 {\n\tproxy / {\n\t\tupstream localhost:65534-65535\n\t}\n\tzz_end\n}\n", "localhost:0 {\n\tproxy / localhost:12-9\n\tzz_end\n}\n",
 	"localhost:0 {\n\tredir\n\tzz_end\n}\n", "localhost:0 {\n\tmime\n\tzz_end\n}\n", "localhost:0 {\n\tstatus\n\tzz_end\n}\n", "localhost:0 {\n\theader\n\tzz_end\n}\n",
 	"localhost:0 {\n\ttls {\n\t\tclients\n\t}\n\tzz_end\n}\n", "localhost:0 {\n\ttls {\n\t\tciphers\n\t}\n\tzz_end\n}\n", "localhost:0 {\n\ttls {\n\t\tcurves\n\t}\n\tzz_end\n}\n", "localhost:0 {\n\ttls {\n\t\talpn\n\t}\n\tzz_end\n}\n",
@@ -539,8 +549,29 @@ type textCase struct {
 	Text string `json:"text"`
 }
 
+var (
+	hungOnce sync.Once
+	hungAddr string
+	hungLn   net.Listener // kept: an unreferenced listener is closed by its finalizer
+)
+
+// hungBackend is the address of a peer that takes connections (the kernel completes the handshake from
+// the listen backlog) and never answers: a hung upstream.
+func hungBackend() string {
+	hungOnce.Do(func() {
+		l, err := net.Listen("tcp", "127.0.0.1:0")
+		if err != nil {
+			panic(err)
+		}
+		hungLn = l
+		hungAddr = l.Addr().String() // never accepted from, never closed
+	})
+	return hungAddr
+}
+
 func runText(c *textCase, hard func(string)) error {
-	input := casket.CasketfileInput{Contents: []byte(c.Text), Filepath: "Casketfile", ServerTypeName: "http"}
+	text := strings.ReplaceAll(c.Text, "{HUNG}", hungBackend())
+	input := casket.CasketfileInput{Contents: []byte(text), Filepath: "Casketfile", ServerTypeName: "http"}
 	// twice: the second load must not hang on state left by the first
 	for i := 0; i < 2; i++ {
 		v := guarded(func() error { return casket.ValidateAndExecuteDirectives(input, nil, true) })
